@@ -9,7 +9,7 @@ package stack
 // VH_C03_FuncInit: Func.Init on every string of length n.
 //
 //verif:prop C03
-//verif:param n quick=0..7 thorough=0..9
+//verif:param n quick=0..7 thorough=0..11
 func VH_C03_FuncInit(n int) {
 	raw := vString("raw", n)
 	f := Func{}
@@ -23,7 +23,7 @@ func VH_C03_FuncInit(n int) {
 // VH_C03_ParseArgs: parseArgs on every byte string of length n.
 //
 //verif:prop C03
-//verif:param n quick=0..6 thorough=0..8
+//verif:param n quick=0..6 thorough=0..10
 func VH_C03_ParseArgs(n int) {
 	line := vBytes("args", n)
 	a, err := parseArgs(line)
@@ -61,7 +61,7 @@ func VH_C03_Trim(n int) {
 // VH_C03_ParseFile: parseFile on every line of length n.
 //
 //verif:prop C03
-//verif:param n quick=0..12 thorough=0..20
+//verif:param n quick=0..12 thorough=0..28
 func VH_C03_ParseFile(n int) {
 	line := vBytes("line", n)
 	c := Call{}
